@@ -39,7 +39,7 @@ def ops_fn(S):
 
 
 def run(ctx):
-    ctx.level = "other"
+    ctx.level = "proof"
     ctx.extra["explanation"] = ("Lean proof of the round-trip theorem for all values with a typed reading (T1, T2; kernel-checked table obligations per run) "
                                 "+ model-vs-implementation correspondence + direct oracle on the real converter; see level_note")
     ctx.rule = ("metamodel-valid values of every root type (387 structures, 22 aliases, 164 message classes): minimal, maximal, "
